@@ -381,6 +381,7 @@ UNITS['registry_hist'] = dict(
     rewrite=_MAPRW, scan=[K + 'libc_model.rs'], timeout={'quick': 1800, 'thorough': 3600},
     harnesses={
         'c02_hist_order': dict(props=['C02', 'C05', 'C04'], kind='bounded', bound='bounded(one history shape: 3 actions on one symbolic signal, symbolic choice of the removed one)'),
+        'c02_hist_order_concrete': dict(props=['C02', 'C05'], kind='bounded', bound='bounded(one concrete history: SIGUSR1, 3 actions, oldest removed, one re-registration)'),
         'c05_hist_two_signals': dict(props=['C05', 'C02', 'C04'], tier='thorough', kind='bounded', bound='bounded(one history shape: two symbolic signals)'),
         'c05_hist_reregister': dict(props=['C05', 'C02'], kind='bounded', bound='bounded(one history shape: register x2, remove one, register again)'),
     })
